@@ -222,7 +222,8 @@ func (x *run) joinReturned(c int, e c06.Ev) {
 		if x.jready[c] != "err" {
 			x.r.Fail("join-error", "stanza-error-without-error-reply", x.lines(), fmt.Sprintf("Join of channel %d returned a stanza error nobody sent: %v", c, err))
 		}
-		if !x.member[c] {
+		if !x.member[c] || x.refused[c] {
+			// not joined by the code's reckoning (a refused Leave ends the membership)
 			delete(x.managed, x.addrs[c])
 		}
 	case errors.Is(err, context.Canceled):
@@ -234,7 +235,8 @@ func (x *run) joinReturned(c int, e c06.Ev) {
 			}
 			x.r.Fail("join-success-iff", key, x.lines(), fmt.Sprintf("Join of channel %d returned %v (ready=%q)", c, err, x.jready[c]))
 		}
-		if !x.member[c] {
+		if !x.member[c] || x.refused[c] {
+			// not joined by the code's reckoning (a refused Leave ends the membership)
 			delete(x.managed, x.addrs[c])
 		}
 	default:
